@@ -1171,6 +1171,14 @@ func (w *c03World) lateCreate(q *c03Quota) {
 			}
 		}
 	}
+	if su, _ := w.shadow(); movedA > 0 {
+		for _, d := range q.dims {
+			if su[q.name][d] > q.max[d] {
+				c.Count("migration_brought_usage_above_max", 1)
+				break
+			}
+		}
+	}
 	c.Op("migrate-default-group-pods: %d assigned and %d unassigned pods now belong to their named quota", movedA, movedP)
 	c.Count("migration_runs", 1)
 	c.Count("pods_migrated_from_default_assigned", movedA)
